@@ -262,6 +262,11 @@ def finest_containing(subs, lat, lon, la=None, lo=None):
     return best
 
 
+def is_close(v, truth, tol):
+    """|v - truth| <= tol in exact arithmetic; a non-finite result is never near"""
+    return math.isfinite(v) and abs(Fr(v) - truth) <= tol
+
+
 def cell_change(g, k, r0, c0):
     """change of field k across the cell (max difference between the corner values and the centre)"""
     vals = [Fr(g['table'][(r0 + a, c0 + b)][k]) for a in (0, 1) for b in (0, 1)]
@@ -475,7 +480,7 @@ def check_query(p, tr, G, subs, offs, flen, desc, la, lo, method, cls, side):
         return
     res = [float(v) for v in res]
     # finest sub-grid: field 4 is the sub-grid's id
-    p.check(abs(res[3] - g['gid']) <= 1e-6, 'subgrid:not-finest' + sfx if abs(res[3] - round(res[3])) < 1e-6 and 1 <= round(res[3]) <= len(subs)
+    p.check(math.isfinite(res[3]) and abs(res[3] - g['gid']) <= 1e-6, 'subgrid:not-finest' + sfx if math.isfinite(res[3]) and abs(res[3] - round(res[3])) < 1e-6 and 1 <= round(res[3]) <= len(subs)
             else key('id-field'), 'finest_subgrid', inp, res[3], g['gid'], call)
     # which bytes were read: only nodes of the selected sub-grid within the 4x4 (2x2) neighbourhood
     gi = subs.index(g)
@@ -506,21 +511,21 @@ def check_query(p, tr, G, subs, offs, flen, desc, la, lo, method, cls, side):
         tol = Fr(1, 10 ** 6) + Fr(1, 10 ** 6) * cell_change(g, k, r0, c0) + Fr(1, 10 ** 9)
         if method == 'bilinear':
             blend = (1 - x) * (1 - y) * n1 + x * (1 - y) * n2 + (1 - x) * y * n3 + x * y * n4
-            p.check(abs(Fr(res[k]) - blend) <= tol, key('not-blend'), 'bilinear_blend', inp, res[k], float(blend), call)
+            p.check(is_close(res[k], blend, tol), key('not-blend'), 'bilinear_blend', inp, res[k], float(blend), call)
         if cls == 'node' or (kind == 'noise' and x == 0 and y == 0):
             # at a node (the query double is the node up to the rounding of the degree value): node value
             near = abs(r - round(r)) < Fr(1, 10 ** 9) and abs(c - round(c)) < Fr(1, 10 ** 9)
             if near:
                 nv = Fr(g['table'][(round(r), round(c))][k])
-                p.check(abs(Fr(res[k]) - nv) <= tol, key('node-value'), 'at_node', inp, res[k], float(nv), call)
+                p.check(is_close(res[k], nv, tol), key('node-value'), 'at_node', inp, res[k], float(nv), call)
         if kind in ('const', 'linear'):
             truth = peval(g['polys'][k], r, c)
-            p.check(abs(Fr(res[k]) - truth) <= tol, key('linear-not-reproduced'), 'reproduces_linear', inp, res[k], float(truth), call)
+            p.check(is_close(res[k], truth, tol), key('linear-not-reproduced'), 'reproduces_linear', inp, res[k], float(truth), call)
         if kind == 'biquadratic' and method == 'bicubic':
             truth = peval(g['polys'][k], r, c)
             # one key per place (ring / interior), whatever the query class: with the bilinear fall-back of
             # C17-1 the ring cannot reproduce bi-quadratic fields (documented limitation)
-            p.check(abs(Fr(res[k]) - truth) <= tol, f'bicubic:{"outer-ring" if ring else "interior"}:biquadratic-not-reproduced{sfx}',
+            p.check(is_close(res[k], truth, tol), f'bicubic:{"outer-ring" if ring else "interior"}:biquadratic-not-reproduced{sfx}',
                     'bicubic_reproduces_biquadratic', inp, res[k], float(truth), call)
 
 
